@@ -392,6 +392,93 @@ func judgeC07(c c07Case, w *rig.World, sid string, cl *rig.Client, openAt, horiz
 	return "", ""
 }
 
+// runC07AfterUpgrade: the heartbeat of a session that has completed an upgrade (well away from
+// any ping deadline): the peer answers once more on the new transport and then goes silent.
+func runC07AfterUpgrade(rev int, target string, PI, PT time.Duration, r *rep.Report) (key, msg string) {
+	rig.Bubble(r.T(), func() {
+		so := &config.ServerOptions{}
+		so.SetAllowEIO3(true)
+		so.SetTransports(types.NewSet("polling", "websocket", "webtransport"))
+		so.SetPingInterval(PI)
+		so.SetPingTimeout(PT)
+		w := rig.NewWorld(rig.Options{Server: so})
+		defer w.Finish()
+		cl, err := w.Connect(rig.ClientCfg{Rev: rev, Transport: "polling", NoAutoPong: rev == 3})
+		rig.Wait()
+		if err != nil {
+			key, msg = "c07-handshake-failed", err.Error()
+			return
+		}
+		sid := cl.Sid
+		sock := w.SocketByID(sid)
+		cl.StartReader()
+		time.Sleep(PI / 20)
+		if err := cl.UpgradeTo(target, nil); err != nil {
+			key, msg = "c07-upgrade-failed", err.Error()
+			return
+		}
+		rig.Wait()
+		if !sock.Upgraded() {
+			key, msg = "c07-upgrade-failed", "upgrade did not complete"
+			return
+		}
+		var deadline time.Duration
+		if rev == 3 {
+			// one client ping on the new transport, answered by a pong; then silence
+			time.Sleep(PI / 2)
+			at := w.Tap.Now()
+			cl.Send(refcodec.Packet{Type: refcodec.Ping})
+			time.Sleep(time.Millisecond)
+			rig.Wait()
+			pong := false
+			for _, rv := range cl.Received() {
+				if rv.P.Type == refcodec.Pong && rv.At >= at {
+					pong = true
+				}
+			}
+			if !pong {
+				key, msg = "c07-v3-ping-not-answered", fmt.Sprintf("revision-3 session upgraded to %s: the client's ping at %v was not answered with a pong", target, at)
+				return
+			}
+			deadline = at + PI + PT
+		} else {
+			// the first server ping is answered (automatically), the second is not
+			time.Sleep(PI + PT/2)
+			cl.SetNoAutoPong(true)
+			rig.Wait()
+			var pings []rig.Event
+			for _, e := range w.Tap.Of(sid, "packetCreate") {
+				if strings.HasPrefix(e.Str, "ping:") {
+					pings = append(pings, e)
+				}
+			}
+			hb := w.Tap.Of(sid, "heartbeat")
+			if len(pings) != 1 || len(hb) == 0 {
+				key, msg = "c07-ping-at-wrong-time", fmt.Sprintf("revision-4 session upgraded to %s at about PI/20: %d pings and %d accepted pongs by open+PI+PT/2%s", target, len(pings), len(hb), w.Tap.Dump(40))
+				return
+			}
+			// next ping one interval after the accepted pong, expiry one timeout after that ping
+			deadline = hb[len(hb)-1].At + PI + PT
+		}
+		time.Sleep(deadline - w.Tap.Now() - time.Nanosecond)
+		rig.Wait()
+		if ev := w.Tap.Of(sid, "close"); len(ev) > 0 {
+			key, msg = "c07-closed-before-deadline", fmt.Sprintf("revision-%d session upgraded to %s: closed (%s) at %v, before its deadline %v", rev, target, ev[0].Str, ev[0].At, deadline)
+			return
+		}
+		time.Sleep(2 * time.Nanosecond)
+		rig.Wait()
+		time.Sleep(time.Millisecond)
+		rig.Wait()
+		ev := w.Tap.Of(sid, "close")
+		if len(ev) != 1 || ev[0].Str != "ping timeout" || ev[0].At != deadline {
+			key, msg = "c07-no-timeout-at-deadline", fmt.Sprintf("revision-%d session upgraded to %s, peer silent after one more heartbeat: expected a 'ping timeout' close at exactly %v; close events %v (state %s)", rev, target, deadline, ev, sock.ReadyState())
+		}
+		cl.Stop()
+	})
+	return
+}
+
 // wrong-direction heartbeats and the revision mismatch between a session and its upgrade transport
 func runC07Direction(mode string, rev int, transport string, r *rep.Report) (key, msg string) {
 	var pan any
@@ -508,7 +595,7 @@ func runC07Closing(rev int, PI, PT time.Duration, r *rep.Report) (key, msg strin
 func TestC07(t *testing.T) {
 	r := rep.New(t, "C07")
 	defer r.Flush()
-	r.Rule("virtual-time sessions: PI, PT in {1 ms .. 25 s} incl. equal / PI<PT / PT<PI x transport x revision x 1-6 heartbeat rounds with the client's answer placed at 0, PT/2, PT-1ns, PT, PT+1ns, never, duplicated, unsolicited (v4) or client pings at fractions of PI+PT incl. exactly PI+PT (v3), with and without concurrent traffic; offline checker over exact virtual timestamps of ping packetCreate, heartbeat and close events; plus sessions that are gracefully closing with a buffered packet and a silent client (expiry still exact), plus wrong-direction heartbeats and a session whose upgrade transport was opened with another EIO value; distinct = (revision, transport, PI/PT relation, rounds)")
+	r.Rule("virtual-time sessions: PI, PT in {1 ms .. 25 s} incl. equal / PI<PT / PT<PI x transport x revision x 1-6 heartbeat rounds with the client's answer placed at 0, PT/2, PT-1ns, PT, PT+1ns, never, duplicated, unsolicited (v4) or client pings at fractions of PI+PT incl. exactly PI+PT (v3), with and without concurrent traffic; offline checker over exact virtual timestamps of ping packetCreate, heartbeat and close events; plus sessions that are gracefully closing with a buffered packet and a silent client (expiry still exact), plus the heartbeat of sessions that completed an upgrade (one more exchange on the new transport, then silence: expiry exact), wrong-direction heartbeats and a session whose upgrade transport was opened with another EIO value; distinct = (revision, transport, PI/PT relation, rounds)")
 	r.Assume("a pong (v4) or ping (v3) processed at exactly the deadline instant may legitimately go either way; every other instant is exact")
 	r.Assume("the instant a ping is 'sent' is its packetCreate event; on polling it may wait in the buffer for the next poll")
 	n := r.N(5000, 600000)
@@ -565,9 +652,18 @@ func TestC07(t *testing.T) {
 			mode string
 			rev  int
 			tr   string
-		}{{"wrongdir", 4, "polling"}, {"wrongdir", 4, "websocket"}, {"wrongdir", 4, "webtransport"}, {"wrongdir", 3, "polling"}, {"wrongdir", 3, "websocket"}, {"upgrade-eio-mismatch", 4, "polling"}, {"upgrade-eio-mismatch", 3, "polling"}} {
+		}{{"after-upgrade", 3, "websocket"}, {"after-upgrade", 4, "websocket"}, {"after-upgrade", 4, "webtransport"}, {"wrongdir", 4, "polling"}, {"wrongdir", 4, "websocket"}, {"wrongdir", 4, "webtransport"}, {"wrongdir", 3, "polling"}, {"wrongdir", 3, "websocket"}, {"upgrade-eio-mismatch", 4, "polling"}, {"upgrade-eio-mismatch", 3, "polling"}} {
 			r.Begin(fmt.Sprintf("dir-%d-%s-%d-%s", i, d.mode, d.rev, d.tr), d)
-			key, msg := runC07Direction(d.mode, d.rev, d.tr, r)
+			var key, msg string
+			if d.mode == "after-upgrade" {
+				// the upgrade (started at PI/20) takes up to ~110 ms of virtual time: the fast-poll noop period
+				PI := []time.Duration{time.Second, 3 * time.Second, 10 * time.Second}[i%3]
+				PT := []time.Duration{60 * time.Millisecond, 400 * time.Millisecond, time.Second}[(i/3)%3]
+				key, msg = runC07AfterUpgrade(d.rev, d.tr, PI, PT, r)
+				r.Obs("heartbeats_after_upgrade_checked", 1)
+			} else {
+				key, msg = runC07Direction(d.mode, d.rev, d.tr, r)
+			}
 			r.End(fmt.Sprintf("dir-%d-%s-%d-%s", i, d.mode, d.rev, d.tr))
 			r.Case(fmt.Sprintf("%s/v%d/%s", d.mode, d.rev, d.tr), true)
 			r.Obs("direction_cases", 1)
